@@ -7,7 +7,7 @@ import I18n.Driver.Util
         → `<lines joined by ,> <uncaught 0/1>`
    `pipeline main <lang absent|valid|invalid> <jobs> <files>`  files = `_` or `,`-joined `<n>` / `<n>!`  → `<stdout tokens> <stderr 0/1> <rc>`
    `pipeline file <unpack 0/1> <deb n|f|m:<members>> <regular n or n!>`   members = `_` or `;`-joined `<n>` / `<n>!`
-   `pipeline cstring <hex>` / `pipeline pystring <hex>` → `<fmt 0/1> <tags joined by ,> <uncaught class or ->`
+   `pipeline cstring <hex>` / `pystring` / `pybstring` / `perlstring <hex>` → `<fmt 0/1> <tags joined by ,> <uncaught class or ->`
    `pipeline dispatch <file> <func> <ord> <class name>` → `<index of the clause or ->` -/
 namespace I18n.Driver.Pipeline
 open I18n I18n.Check I18n.ExcFlow I18n.Pipeline I18n.Generated.ExcMap
@@ -64,6 +64,12 @@ def handle (op : String) (args : List String) : String :=
     (if r.fmt.isSome then "1" else "0") ++ " " ++ joinOr r.tags ++ " " ++ (match r.uncaught with | none => "-" | some c => classNames.getD c "?")
   | "pystring", [h] =>
     let r := pyCheckString (Driver.unhexChars h)
+    (if r.fmt.isSome then "1" else "0") ++ " " ++ joinOr r.tags ++ " " ++ (match r.uncaught with | none => "-" | some c => classNames.getD c "?")
+  | "pybstring", [h] =>
+    let r := pybraceCheckString (Driver.unhexChars h)
+    (if r.fmt.isSome then "1" else "0") ++ " " ++ joinOr r.tags ++ " " ++ (match r.uncaught with | none => "-" | some c => classNames.getD c "?")
+  | "perlstring", [h] =>
+    let r := perlbraceCheckString (Driver.unhexChars h)
     (if r.fmt.isSome then "1" else "0") ++ " " ++ joinOr r.tags ++ " " ++ (match r.uncaught with | none => "-" | some c => classNames.getD c "?")
   | "dispatch", [file, func, ord, name] =>
     let t := site file func ord.toNat!
